@@ -21,7 +21,8 @@ ASSUMPTIONS = [
     "operations are applied only to nodes that belong to the list (the property's precondition)",
     "the model is a python list of node identities; payloads are never compared by the oracle (only `is`)",
 ]
-NCASES = {"quick": 8000, "thorough": 120000}
+BASE_CASES = {"quick": 8000, "thorough": 120000}
+NCASES = {"quick": 9600, "thorough": 144000}
 NSHARDS = 16
 SHARD_TIMEOUT = {"quick": 300, "thorough": 3600}
 
@@ -205,6 +206,7 @@ def run_case(case, res):
         payload_of[id(m)] = m.data
     check_state(l, model, payload_of, "construction", kind)
 
+    quiet = bool(case.get("quiet"))
     for step, (op, a, b, k) in enumerate(case["ops"]):
         n = len(model)
         desc = op
@@ -451,10 +453,16 @@ def run_case(case, res):
                 raise Violation("missing-exception", f"{desc} on the empty list did not raise {expect_exc}", {})
         res.evaluations += 1
         res.count("ops_" + op)
-        check_state(l, model, payload_of, desc, kind)
+        if not quiet:
+            check_state(l, model, payload_of, desc, kind)
+        else:
+            res.count("quiet_steps_not_followed_by_a_read")
         if len(model) >= 2:
             pos = tuple(_order_signature(model, payload_of['#birth']))
             res.seen((kind, pos) if len(pos) <= 12 else (kind, len(pos), pos[:6], pos[-6:]))
+    if quiet:
+        check_state(l, model, payload_of, f"the whole quiet history of {len(case['ops'])} operations", kind)
+        res.count("quiet_histories")
     try:
         g = (list(comp), len(comp), comp.head.data, comp.tail.data, comp.head.next_node is comp.tail)
     except Exception as e:
@@ -513,3 +521,22 @@ def replay(doc):
 
 
 RULE += ' Also (wave 9): deep copies / pickle round trips of (list, node handles) continued with the copies, shallow copies of the list with one handle dropped and collected.'
+
+
+# ---- quiet histories (wave 12) ------------------------------------------------------------------------------------------
+# Case indices above BASE_CASES repeat the ordinary generator (with its own random draws) but are observed only at the end of
+# the history: the per-step observation reads the object through its public API, and a read can repair or overwrite state
+# that one operation left behind for the next (a deferred update, a remembered position) before the next operation meets it.
+_gen_case_ordinary = gen_case
+
+
+def gen_case(rng, tier, index):
+    if index >= BASE_CASES[tier]:
+        c = _gen_case_ordinary(rng, tier, index - BASE_CASES[tier] + 1)
+        c["quiet"] = True
+        return c
+    return _gen_case_ordinary(rng, tier, index)
+
+
+RULE += (' Also (wave 12): quiet histories (case indices above BASE_CASES) whose steps are not followed by a read through the '
+         'public API; the full comparison comes once, at the end of the history.')
